@@ -198,7 +198,6 @@ func readCurrentRegex(filePath string, ruleId string, chainOffset uint8) string 
 	foundRule := false
 	chainCount := uint8(0)
 	// A following SecRule only belongs to the chain if the rule before it carries the `chain` action.
-	chainActionRegex := regexp.MustCompile(`\bchain\b`)
 	sawChainAction := false
 	for index, line = range lines {
 		if !foundRule && idRegex.Match(line) {
@@ -207,7 +206,7 @@ func readCurrentRegex(filePath string, ruleId string, chainOffset uint8) string 
 				index--
 				break
 			}
-			sawChainAction = chainActionRegex.Match(line)
+			sawChainAction = regex.HasChainAction(line)
 			continue
 		}
 		if foundRule && regex.SecRuleRegex.Match(line) {
@@ -217,7 +216,7 @@ func readCurrentRegex(filePath string, ruleId string, chainOffset uint8) string 
 			}
 			chainCount++
 			sawChainAction = false
-		} else if foundRule && chainActionRegex.Match(line) {
+		} else if foundRule && regex.HasChainAction(line) {
 			sawChainAction = true
 		}
 		if foundRule && chainCount == chainOffset {
